@@ -79,11 +79,22 @@ def _to_index(spec, for_dask):
 
 
 def _value(inp):
+    """the assignment value; `vkind` varies its Python type / dtype (NumPy casts to the array's dtype on assignment)"""
     import numpy as np
     vs = inp["vshape"]
+    kind = inp.get("vkind", "int")
     if vs is None:
-        return -7
-    return -(np.arange(int(np.prod(vs)), dtype=int).reshape(vs) + 1)
+        return {"int": -7, "float": -7.75, "npscalar": np.int16(-7), "bool": True, "zerod": np.array(-7), "list": -7}[kind]
+    v = -(np.arange(int(np.prod(vs)), dtype=int).reshape(vs) + 1)
+    if kind == "float":
+        return v - 0.75
+    if kind == "list":
+        return v.tolist()
+    if kind == "bool":
+        return (v % 2).astype(bool)
+    if kind == "npscalar":
+        return v.astype("int8")
+    return v
 
 
 def _class(inp, x):
@@ -335,7 +346,7 @@ def case_api(ctx, inp):
     cls = _class(inp, x)
     d = da.from_array(x.copy(), chunks=chunks)
     v = val
-    if inp.get("dask_value") and inp["vshape"] is not None:
+    if inp.get("dask_value") and inp["vshape"] is not None and isinstance(val, np.ndarray):
         v = da.from_array(val, chunks=tuple(max(1, (s + 1) // 2) for s in val.shape)) if val.ndim else da.from_array(val)
     try:
         d[_to_index(inp["index"], True)] = v
@@ -482,6 +493,8 @@ def generate(ctx):
         c = _rand_case(rng)
         if c:
             c["dask_value"] = rng.random() < 0.4
+            if rng.random() < 0.3:
+                c["vkind"] = rng.choice(["float", "list", "npscalar", "bool", "zerod"])
             yield "api", c
     # broadcasting a size-1 value axis over an array / boolean index (NumPy and dask), every chunking of the indexed axis
     for n in range(2, 5):
